@@ -1,5 +1,14 @@
-(** C15 -- property theorems only.  Each is closed by [exact] of a lemma of [Proofs] and
-    followed by [Print Assumptions]. *)
+(** C15 -- property theorems only.  Each is closed by [exact]/short glue from lemmas of
+    [Proofs] and followed by [Print Assumptions].
+
+    Types: [parse_kind O k] / [display_kind O k] are [FromStr] / [Display] of the k-th of the
+    fifteen types Isd, Asn, IsdAsn, ServiceAddr, ScionHostAddr, ScionAddr{Svc,V4,V6},
+    ScionAddr, ScionIpAddr, ScionSocketAddr{Svc,V4,V6}, ScionSocketAddr, ScionSocketIpAddr.
+    [O] stands for std's Ipv4Addr/Ipv6Addr parsers and formatters, about which only
+    [std_like O] is assumed (and shown satisfiable).
+
+    NOT covered (the property's last sentence): the DNS TXT record parser
+    [scion_stack::resolver::txt::parse_txt_payload] is a private function. *)
 From Sci Require Import Text.Model Text.Spec Text.Proofs.
 Local Open Scope N_scope.
 
@@ -19,8 +28,77 @@ Theorem isd_asn_display_parse : forall v, v < 2 ^ 64 -> parse_ia (display_ia v) 
 Proof. exact parse_ia_display. Qed.
 Print Assumptions isd_asn_display_parse.
 
-(** ** identifiers: no byte string makes a parser panic *)
+(** ** identifiers: no byte string (valid UTF-8 or not) makes a parser panic *)
 Theorem identifiers_never_panic :
   forall s, is_panic (parse_isd s) = false /\ is_panic (parse_asn s) = false /\ is_panic (parse_ia s) = false.
 Proof. intros s. exact (conj (parse_isd_nopanic s) (conj (parse_asn_nopanic s) (parse_ia_nopanic s))). Qed.
 Print Assumptions identifiers_never_panic.
+
+(** ** identifiers: an accepted string is a form of the value up to the std-integer
+    spellings (one '+', leading zeros, hex case); nothing else is accepted *)
+Theorem isd_parse_exact : forall s v, parse_isd s = Ok v -> norm_isd s = display_isd v.
+Proof. exact parse_isd_exact. Qed.
+Print Assumptions isd_parse_exact.
+
+Theorem asn_parse_exact : forall s v, parse_asn s = Ok v ->
+  norm_asn s = display_asn v \/ norm_asn s = display_asn_hex v.
+Proof.
+  intros s v H. apply parse_asn_exact in H. destruct H as [H|[H|[]]]; [left|right]; symmetry; exact H.
+Qed.
+Print Assumptions asn_parse_exact.
+
+Theorem isd_asn_parse_exact : forall s v, parse_ia s = Ok v -> In (norm_ia s) (ia_forms v).
+Proof. exact parse_ia_exact. Qed.
+Print Assumptions isd_asn_parse_exact.
+
+(** ** service addresses *)
+Theorem service_display_parse :
+  forall s, s < 2 ^ 16 -> svc_named s = true -> parse_svc (display_svc s) = Ok s.
+Proof. exact parse_svc_display. Qed.
+Print Assumptions service_display_parse.
+
+Theorem service_parse_exact : forall s v, parse_svc s = Ok v -> norm_svc s = display_svc v.
+Proof. exact parse_svc_exact. Qed.
+Print Assumptions service_parse_exact.
+
+(** ** all fifteen types: display then parse is the identity.
+    PARTIAL with respect to "every host value": service addresses outside the three named
+    services are excluded ([val_named]); for those the sentence is refuted
+    (Findings.svc_unnamed_roundtrip_refuted, known finding C15-svc-unnamed). *)
+Theorem display_parse_partial :
+  forall O, std_like O -> forall k v d,
+    val_wf k v = true -> val_named k v = true -> display_kind O k v = Some d ->
+    parse_kind O k d = Ok v.
+Proof.
+  intros O (RT4 & RT6 & CH4 & CH6) k v d. exact (kind_display_parse O RT4 RT6 CH4 CH6 k v d).
+Qed.
+Print Assumptions display_parse_partial.
+
+(** ** all fifteen types: a string is accepted only if it normalises to a form of the value
+    (no leading or trailing garbage, no other spelling) *)
+Theorem parse_exact :
+  forall O, std_like O -> forall k s v, parse_kind O k s = Ok v -> In (norm O k s) (forms O k v).
+Proof.
+  intros O (RT4 & RT6 & CH4 & CH6) k s v. apply kind_parse_exact; assumption.
+Qed.
+Print Assumptions parse_exact.
+
+(** ** all fifteen types: no string makes a parser panic -- for every IP oracle whatsoever.
+    [utf8_ok] is the structural part of the UTF-8 invariant of Rust's [&str]. *)
+Theorem parse_never_panics :
+  forall O k s, utf8_ok s = true -> is_panic (parse_kind O k s) = false.
+Proof. exact parse_kind_nopanic. Qed.
+Print Assumptions parse_never_panics.
+
+(** the assumptions on std's IP text are satisfiable *)
+Theorem ip_assumptions_satisfiable : exists O, std_like O.
+Proof. exists toy_oracle. exact toy_oracle_std_like. Qed.
+Print Assumptions ip_assumptions_satisfiable.
+
+(** non-vacuity: a socket address with an IPv6 host through the toy oracle *)
+Example display_parse_example :
+  display_kind toy_oracle K_SOCK (VSock 561850441793808 (H6 1) 443) =
+    Some [91; 49; 45; 102; 102; 48; 48; 58; 48; 58; 49; 49; 48; 44; 58; 49; 93; 58; 52; 52; 51] /\
+  parse_kind toy_oracle K_SOCK [91; 49; 45; 102; 102; 48; 48; 58; 48; 58; 49; 49; 48; 44; 58; 49; 93; 58; 52; 52; 51]
+    = Ok (VSock 561850441793808 (H6 1) 443).
+Proof. vm_compute. split; reflexivity. Qed.
